@@ -81,3 +81,25 @@ func uninlineStorableIfNeeded(storage SlabStorage, storable Storable) (Storable,
 
 	return storable, emptyValueID, false, nil
 }
+
+// isInlinedSlabOfValue returns true if given storable is (or wraps) the inlined
+// root slab of the array or map that given value is (or wraps), i.e. an inlined
+// child container that is being set back into the slot it already occupies.
+func isInlinedSlabOfValue(storable Storable, value Value) bool {
+	unwrappedValue, _ := unwrapValue(value)
+
+	v, ok := unwrappedValue.(mutableValueNotifier)
+	if !ok {
+		return false
+	}
+
+	switch s := unwrapStorable(storable).(type) {
+	case ArraySlab:
+		return slabIDToValueID(s.SlabID()) == v.ValueID()
+
+	case MapSlab:
+		return slabIDToValueID(s.SlabID()) == v.ValueID()
+	}
+
+	return false
+}
